@@ -12,7 +12,7 @@ def main():
     subprocess.run([sys.executable, os.path.join(ROOT, "lib", "genmanifest.py")], check=False)
     props = []
     for p in sorted(glob.glob(os.path.join(ROOT, "props", "C*.json"))):
-        if p.endswith(".findings.json"):
+        if p.endswith(".findings.json") or p.endswith(".fixed.json"):
             continue
         d = json.load(open(p))
         if d.get("status") == "ready":
